@@ -506,6 +506,12 @@ def jobs(tier):
                                 "subwindow_size_thresh": 1}},
                        expect=("after-drift", "state-drift"),
                        ))
+    # the wrapper must forward each threshold to the parameter of the same name: a minimum window above the sub-window
+    # threshold (seed C01-7 forwarded subwindow_size_thresh as window_size_thresh)
+    out.append(Job("adwinacc-hist-mb2-wst3-sub1", "checks.c01:body_history",
+                   {"det": "ADWINAccuracy", "N": 7 if q else 8,
+                    "cfg": {"max_buckets": 2, "new_sample_thresh": 1, "window_size_thresh": 3, "subwindow_size_thresh": 1}},
+                   expect=("after-drift", "state-drift")))
     for burn in (0, 1, 2):
         for sub in (1, 2):
             n = 3 if q else 4
